@@ -592,15 +592,20 @@ pub struct FrameCase17 {
     /// channel count of the `StreamInfo` handed to the encoder when it differs from the buffer's
     #[serde(default)]
     pub info_channels: Option<usize>,
+    /// `FrameBuf::resize(k)` called on the buffer: (before the fill?, k). Sizes outside 32..=32767 and sizes below the
+    /// filled length make the buffer an argument outside the supported domain (resize itself cannot report an error)
+    #[serde(default)]
+    pub resize: Option<(bool, usize)>,
 }
 
 pub fn check_frame(c: &FrameCase17) -> Outcome {
     let mut out = Outcome::new(fnv(format!("{c:?}").as_bytes()));
     let num_valid = c.frame_number < (1usize << 31);
-    let delivered = match c.fill {
-        None => c.block,
-        Some(usize::MAX) => 0,
-        Some(k) => k.min(c.block),
+    let delivered = match (c.fill, c.resize) {
+        (None, _) => c.block,
+        (Some(usize::MAX), _) => 0,
+        (Some(k), Some((true, size))) => k.min(size.max(c.block)),
+        (Some(k), _) => k.min(c.block),
     };
     let empty = delivered == 0;
     let mismatch = c.info_channels.map_or(false, |k| k != c.channels);
@@ -645,6 +650,10 @@ pub fn check_frame(c: &FrameCase17) -> Outcome {
         }
         out.class("history:byte-fill-before-the-judged-fill");
     }
+    if let Some((before, k)) = c.resize {
+        out.class(format!("history:resize-{}-the-fill:{}", if before { "before" } else { "after" }, if k == 0 { "0" } else if k < 32 { "1..31" } else if k <= 32767 { "valid-size" } else { ">32767" }));
+        return check_frame_resized(c, fb, &info, &vc, &v, before, k, out);
+    }
     if c.fill != Some(usize::MAX) && fb.fill_interleaved(&v).is_err() {
         out.viol("fill-rejects-valid", "fill_interleaved of at most the capacity failed");
         return out;
@@ -682,7 +691,98 @@ pub fn check_frame(c: &FrameCase17) -> Outcome {
     out
 }
 
+/// A buffer that has been resized (before or after its fill). Oracle: nothing panics; the fill returns Err or Ok; the
+/// encode returns Err, or a frame that is well formed and faithful (decodes, announces exactly as many samples as
+/// each subframe holds, and - when the fill came after the resize and fitted - holds the delivered samples).
+#[allow(clippy::too_many_arguments)]
+fn check_frame_resized(c: &FrameCase17, mut fb: FrameBuf, info: &StreamInfo, vc: &flacenc::error::Verified<flacenc::config::Encoder>, v: &[i32], before: bool, k: usize, mut out: Outcome) -> Outcome {
+    out.nontrivial = true;
+    let what = format!("FrameBuf({} ch, {}) {} resize({k}), {} values", c.channels, c.block, if before { "after" } else { "before" }, v.len());
+    let fill = |fb: &mut FrameBuf| catch(|| fb.fill_interleaved(v).is_ok());
+    let filled = if before {
+        if let Err(p) = catch(|| fb.resize(k)) {
+            out.class(format!("resize-panics:{}", normalise(&p.sig())));
+            return out;
+        }
+        match fill(&mut fb) {
+            Err(p) => {
+                out.viol(format!("fill-{}", normalise(&p.sig())), format!("{what}: fill panicked: {} at {}", p.msg, p.loc));
+                return out;
+            }
+            Ok(ok) => ok,
+        }
+    } else {
+        let ok = match fill(&mut fb) {
+            Err(p) => {
+                out.viol(format!("fill-{}", normalise(&p.sig())), format!("{what}: fill panicked: {} at {}", p.msg, p.loc));
+                return out;
+            }
+            Ok(ok) => ok,
+        };
+        if let Err(p) = catch(|| fb.resize(k)) {
+            out.class(format!("resize-panics:{}", normalise(&p.sig())));
+            return out;
+        }
+        ok
+    };
+    out.class(if filled { "fill:ok" } else { "fill:err" });
+    match catch(|| flacenc::encode_fixed_size_frame(vc, &fb, c.frame_number & 0xFFFF, info)) {
+        Err(p) => out.viol(format!("frame-{}", normalise(&p.sig())), format!("{what}: encode_fixed_size_frame panicked: {} at {}", p.msg, p.loc)),
+        Ok(Err(_)) => out.class("result:err"),
+        Ok(Ok(f)) => {
+            out.class("result:ok");
+            let fctx = refdec::FrameCtx { rate: Some(44100), bps: Some(c.bps as u32), channels: Some(c.channels), max_block: None };
+            match catch(|| enc::frame_bytes(&f, 1 << 26)) {
+                Ok(Ok(b)) => {
+                    let mut viol = vec![];
+                    match refdec::decode_frame(&b, 0, &fctx, (c.frame_number & 0xFFFF) as u64, &mut viol) {
+                        Ok((ft, chans, end)) => {
+                            let n = v.len() / c.channels;
+                            let faithful = !before || !filled || (ft.block_size == n && (0..n).all(|t| (0..c.channels).all(|ch| chans[ch][t] == v[t * c.channels + ch] as i64)));
+                            if end != b.len() || !faithful || ft.block_size > 32767 {
+                                out.viol("frame-from-resized-buffer-not-faithful", format!("{what}: the frame announces {} samples, the fill delivered {n}", ft.block_size));
+                            }
+                        }
+                        Err(e) => out.viol("frame-from-resized-buffer-malformed", format!("{what}: encode returned Ok but the frame does not decode: {e}")),
+                    }
+                }
+                Ok(Err(e)) => out.viol("frame-unwritable", e),
+                Err(p) => out.viol(format!("frame-write-{}", normalise(&p.sig())), p.msg),
+            }
+        }
+    }
+    out
+}
+
 // ------------------------------------------------------------------------------------------
+
+/// `Context` made for a channel count outside 1..=8 (the constructor cannot report an error): fills must not panic.
+#[derive(Clone, Debug, Serialize, Deserialize)]
+pub struct CtxCase {
+    pub channels: usize,
+    pub bps: usize,
+    pub values: usize,
+    pub by_bytes: bool,
+}
+
+pub fn check_ctx(c: &CtxCase) -> Outcome {
+    let mut out = Outcome::new(fnv(format!("{c:?}").as_bytes()));
+    out.nontrivial = c.channels == 0 || c.channels > 8;
+    let v = rnd_samples(c.values, c.bps, 5);
+    let nb = (c.bps + 7) / 8;
+    let bytes: Vec<u8> = v.iter().flat_map(|x| x.to_le_bytes()[..nb].to_vec()).collect();
+    let r = catch(|| {
+        let mut cx = Context::new(c.bps, c.channels);
+        let r = if c.by_bytes { cx.fill_le_bytes(&bytes, nb).is_ok() } else { cx.fill_interleaved(&v).is_ok() };
+        let _ = (cx.total_samples(), cx.md5_digest(), cx.current_frame_number());
+        r
+    });
+    match r {
+        Err(p) => out.viol(format!("context-fill-{}", normalise(&p.sig())), format!("Context::new({}, {}) then a fill of {} values: panicked: {} at {}", c.bps, c.channels, c.values, p.msg, p.loc)),
+        Ok(ok) => out.class(format!("context:channels={}:{}", if c.channels == 0 { "0".to_string() } else if c.channels > 8 { ">8".to_string() } else { "valid".to_string() }, if ok { "ok" } else { "err" })),
+    }
+    out
+}
 
 #[derive(Clone, Debug, Serialize, Deserialize)]
 pub enum Case17 {
@@ -691,6 +791,7 @@ pub enum Case17 {
     Fill(FillCase),
     Stream(StreamCase17),
     Frame(FrameCase17),
+    Ctx(CtxCase),
 }
 
 pub fn check(c: &Case17) -> Outcome {
@@ -700,6 +801,7 @@ pub fn check(c: &Case17) -> Outcome {
         Case17::Fill(x) => check_fill(x),
         Case17::Stream(x) => check_stream(x),
         Case17::Frame(x) => check_frame(x),
+        Case17::Ctx(x) => check_ctx(x),
     }
 }
 
@@ -845,26 +947,46 @@ fn ragged_fill_grid() -> Vec<Case17> {
 
 fn frame_grid() -> Vec<Case17> {
     let mut v = vec![];
+    // resized buffers: sizes outside 32..=32767, sizes below what has been filled, before and after the fill
+    for (ch, bps) in [(1usize, 16usize), (2, 8), (3, 24)] {
+        for k in [0usize, 1, 16, 31, 32, 33, 40, 63, 64, 65, 100, 1024, 32767, 32768, 40000, 65535, 65536, 65600] {
+            for before in [false, true] {
+                for fill in [None, Some(17usize), Some(0usize), Some(usize::MAX - 1)] {
+                    // Some(usize::MAX - 1): as many samples as the *resized* buffer holds (only meaningful before the fill)
+                    let (block, fill) = match fill {
+                        Some(x) if x == usize::MAX - 1 => {
+                            if !before || k == 0 || k > 70000 {
+                                continue;
+                            }
+                            (64usize, Some(k))
+                        }
+                        f => (64usize, f),
+                    };
+                    v.push(Case17::Frame(FrameCase17 { channels: ch, bps, block, frame_number: 1, bad_sample: None, seed: 21, fill, prefill_bytes: false, info_channels: None, resize: Some((before, k)) }));
+                }
+            }
+        }
+    }
     // the buffer and the stream description disagree on the number of channels
     for fbch in 1usize..=8 {
         for sich in 1usize..=8 {
             if fbch != sich {
                 for bps in [8usize, 16, 24] {
-                    v.push(Case17::Frame(FrameCase17 { channels: fbch, bps, block: 64, frame_number: 2, bad_sample: None, seed: 11, fill: if (fbch + sich) % 2 == 0 { None } else { Some(17) }, prefill_bytes: sich % 3 == 0, info_channels: Some(sich) }));
+                    v.push(Case17::Frame(FrameCase17 { channels: fbch, bps, block: 64, frame_number: 2, bad_sample: None, seed: 11, fill: if (fbch + sich) % 2 == 0 { None } else { Some(17) }, prefill_bytes: sich % 3 == 0, info_channels: Some(sich), resize: None }));
                 }
             }
         }
     }
     for n in frame_number_grid() {
         for (ch, bps) in [(1usize, 16usize), (2, 24), (8, 8)] {
-            v.push(Case17::Frame(FrameCase17 { channels: ch, bps, block: 64, frame_number: n, bad_sample: None, seed: 1, fill: None, prefill_bytes: false, info_channels: None }));
+            v.push(Case17::Frame(FrameCase17 { channels: ch, bps, block: 64, frame_number: n, bad_sample: None, seed: 1, fill: None, prefill_bytes: false, info_channels: None, resize: None }));
         }
     }
     // delivered sample counts: empty fill, never filled, short valid blocks, full
     for (ch, bps) in [(1usize, 16usize), (2, 24), (8, 8)] {
         for fill in [Some(0usize), Some(usize::MAX), Some(1), Some(2), Some(15), Some(16), Some(63), None] {
             for block in [32usize, 64, 4096] {
-                v.push(Case17::Frame(FrameCase17 { channels: ch, bps, block, frame_number: 7, bad_sample: None, seed: 3, fill, prefill_bytes: false, info_channels: None }));
+                v.push(Case17::Frame(FrameCase17 { channels: ch, bps, block, frame_number: 7, bad_sample: None, seed: 3, fill, prefill_bytes: false, info_channels: None, resize: None }));
             }
         }
     }
@@ -873,8 +995,8 @@ fn frame_grid() -> Vec<Case17> {
             for i in [0usize, 1, 63, 64 * ch - 1, 17] {
                 for above in [false, true] {
                     for far in [0u8, 1] {
-                        v.push(Case17::Frame(FrameCase17 { channels: ch, bps, block: 64, frame_number: 3, bad_sample: Some((i, above, far)), seed: 2, fill: None, prefill_bytes: false, info_channels: None }));
-                        v.push(Case17::Frame(FrameCase17 { channels: ch, bps, block: 64, frame_number: 3, bad_sample: Some((i, above, far)), seed: 2, fill: None, prefill_bytes: true, info_channels: None }));
+                        v.push(Case17::Frame(FrameCase17 { channels: ch, bps, block: 64, frame_number: 3, bad_sample: Some((i, above, far)), seed: 2, fill: None, prefill_bytes: false, info_channels: None, resize: None }));
+                        v.push(Case17::Frame(FrameCase17 { channels: ch, bps, block: 64, frame_number: 3, bad_sample: Some((i, above, far)), seed: 2, fill: None, prefill_bytes: true, info_channels: None, resize: None }));
                     }
                 }
             }
@@ -889,7 +1011,7 @@ pub fn run(ctx: &Ctx) {
          StreamInfo::new / Stream::new over the FULL product of rate x channels x bits grids {0, min-1, min, max, max+1, 2^8+k, 2^16+k, 2^32+k, usize::MAX}; FrameBuf::with_size over the full product channels x size; \
          fills of FrameBuf / Context / (FrameBuf, Context) with capacity+extra samples (extra in {0,1,2,31,64,1000}; also capacity + 1..channels-1 surplus VALUES, i.e. less than one inter-channel sample too many) as integers and bytes, byte widths {0..5, 8, 9, 255, 2^32+2, usize::MAX}, each also after a valid block has been accepted (history); byte strings that are not a whole number of samples (1..width-1 bytes cut off an under-full block: Err required for buffers) and value lists that are not a whole number of inter-channel samples (no verdict on Ok/Err; what was stored must encode without panic); \
          encode_with_fixed_block_size in single- and multi-thread mode (60 s deadline per call) from a source that declares grid values for rate / channels / bits, with grid block sizes, over-long reads (by whole samples and by 1..channels-1 values), wrong byte widths from the first read or only from read 1..3 on, and samples outside the width at read 0..3; \
-         encode_fixed_size_frame with every pair of differing (buffer channels, StreamInfo channels) in 1..=8 (Err required), over the frame-number grid and with one sample just outside / far outside the width at several positions; plus proptest-generated positions, widths and over-fill amounts; \
+         fills of a Context made for 0 / 9 / 255 / 256 / usize::MAX channels (no panic); frame buffers resized to {0, 1, 16, 31, ..., 32768, 40000, 65600} before or after their fill, then filled and encoded (no panic; Err, or a well-formed frame that announces what it holds and holds what was delivered); encode_fixed_size_frame with every pair of differing (buffer channels, StreamInfo channels) in 1..=8 (Err required), over the frame-number grid and with one sample just outside / far outside the width at several positions; plus proptest-generated positions, widths and over-fill amounts; \
          oracle: Err, or a result that states exactly the given values (accessors, serialised STREAMINFO, decoded audio, MD5, frame number); never a panic / hang / reinterpreted value; Err is REQUIRED for over-fills, disagreeing byte widths, samples outside the width, frame numbers >= 2^31 and block sizes outside 32..=32767; \
          non-trivial = grid point with an argument outside the documented domain; distinct by value",
     );
@@ -912,6 +1034,8 @@ pub fn run(ctx: &Ctx) {
     let rfg = ragged_fill_grid();
     ctx.enumerate_all("fill-ragged", 16, rfg.len() as u64, |i| rfg[i as usize].clone(), check);
     // E
+    let cxg: Vec<Case17> = [0usize, 9, 255, 256, usize::MAX].iter().flat_map(|&ch| [8usize, 16, 24].into_iter().flat_map(move |bps| [0usize, 1, 7, 64].into_iter().flat_map(move |values| [false, true].into_iter().map(move |by_bytes| Case17::Ctx(CtxCase { channels: ch, bps, values, by_bytes })))).collect::<Vec<_>>()).collect();
+    ctx.enumerate_all("context-channels", 8, cxg.len() as u64, |i| cxg[i as usize].clone(), check);
     let frg = frame_grid();
     ctx.enumerate_all("frame", 16, frg.len() as u64, |i| frg[i as usize].clone(), check);
     // D
@@ -930,7 +1054,7 @@ pub fn run(ctx: &Ctx) {
     }, check);
     ctx.search("gen-frame", 16, per * 2, &|| {
         (1usize..=8, proptest::sample::select(vec![8usize, 12, 16, 20, 24]), 32usize..=500, prop_oneof![3 => 0usize..(1 << 31), 1 => (1usize << 31)..usize::MAX], proptest::option::weighted(0.6, (any::<usize>(), any::<bool>(), 0u8..2)), any::<u64>())
-            .prop_map(|(channels, bps, block, frame_number, bad_sample, seed)| Case17::Frame(FrameCase17 { channels, bps, block, frame_number, bad_sample, seed, fill: None, prefill_bytes: seed % 3 == 0, info_channels: if seed % 7 == 0 { Some(1 + (seed / 7 % 8) as usize) } else { None } }))
+            .prop_map(|(channels, bps, block, frame_number, bad_sample, seed)| Case17::Frame(FrameCase17 { channels, bps, block, frame_number, bad_sample, seed, fill: None, prefill_bytes: seed % 3 == 0, info_channels: if seed % 7 == 0 { Some(1 + (seed / 7 % 8) as usize) } else { None }, resize: if seed % 5 == 0 { Some((seed % 2 == 0, [0usize, 1, 16, 31, 32, 40, 100, 32767, 32768, 40000, 65600][(seed / 5 % 11) as usize])) } else { None } }))
     }, check);
     ctx.search("gen-stream", 8, per, &|| {
         let mis = prop_oneof![
